@@ -485,8 +485,7 @@ def run(ctx):
         directed(ctx)
     if ctx.shard == 1 % max(ctx.nshards, 1):
         template_files(ctx, rng)
-    if ctx.shard == 2 % max(ctx.nshards, 1):
-        threads_phase(ctx, rng)
+    threads_phase(ctx, rng)          # (thread timing is a matter of chance: every shard has a go)
     for ti, tmpl in enumerate(templates):
         # every shard visits every template (different rng) in thorough; quick splits the per-template budget
         for k in range(per_template):
